@@ -459,14 +459,14 @@ def run_c13(ctx):
     kf_hist = [b["hist"] for b in bad[:40 if quick else 200]]
 
     behaviours = [("tlc-counterexamples", kf_hist)]
-    sim_depth, sim_num = (14, 300) if quick else (22, 3000)
+    sim_depth, sim_num = (14, 600) if quick else (22, 3000)
     hs = simulate(ctx, fam, base, "sim_depth%d" % sim_depth, sim_depth, sim_num, MaxLoops=3, RecvOps="{1}", RecvSI="{a1}", RecvTI="{routerip, a2}")
     rng.shuffle(hs)
     behaviours.append(("tlc-walks", hs[:sim_num]))
     hs = simulate(ctx, fam, probe, "sim_probe", 10, 100 if quick else 600, MaxLoops=2)
     rng.shuffle(hs)
     behaviours.append(("tlc-walks-probe", hs[:100 if quick else 600]))
-    n, ln = (150, 50) if quick else (1500, 70)
+    n, ln = (300, 50) if quick else (1500, 70)
     behaviours.append(("random", [arp_random_script(rng, ln) for _ in range(n)]))
 
     stats, runs, nbeh, total, samples, drift = {}, [], 0, 0, [], []
@@ -591,12 +591,12 @@ def liveness(ctx, fam, cfg_base):
         cfg = cfg.replace("SPECIFICATION MCSpec", "SPECIFICATION LiveSpec")
         cfg = re.sub(r"(?m)^INVARIANTS.*$", "PROPERTIES StopLeadsToDone CloseLeadsToDone", cfg).replace("VIEW View\n", "")
         r = vlib.tlc(ctx, fam.mc, cfg="live.cfg", files={"live.cfg": cfg}, timeout=900, heap="6g", workers=4)
-        label = "liveness_" + ("repaired" if fixed else "as_coded")
+        label = "liveness_" + ("code_mechanism" if fixed else "deviation_variant")
         out[label] = r.summary()
         if fixed and not r.ok:
             raise vlib.InfraError("%s LiveSpec (repaired mechanism) fails: %s\n%s" % (fam.mc, r.violated, r.out[-2000:]))
         if not fixed:
-            out[label]["expected_violation"] = bool(r.violated)
+            out[label]["temporal_property_violated"] = (not r.ok) and "emporal" in r.out
     return out
 
 
@@ -905,11 +905,11 @@ def run_c14(ctx):
     rng.shuffle(bad)
     bad.sort(key=lambda b: len(b["hist"]))
     behaviours = [("tlc-counterexamples", [b["hist"] for b in bad[:40 if quick else 200]])]
-    sim_depth, sim_num = (16, 300) if quick else (24, 3000)
+    sim_depth, sim_num = (16, 600) if quick else (24, 3000)
     hs = simulate(ctx, fam, base, "sim_depth%d" % sim_depth, sim_depth, sim_num, MaxLoops=3)
     rng.shuffle(hs)
     behaviours.append(("tlc-walks", hs[:sim_num]))
-    n, ln = (150, 60) if quick else (1500, 80)
+    n, ln = (300, 60) if quick else (1500, 80)
     behaviours.append(("random", [ndp_random_script(rng, ln) for _ in range(n)]))
 
     stats, runs, nbeh, total, samples, drift = {}, [], 0, 0, [], []
